@@ -811,6 +811,34 @@ def run_hooked(case, res, P, feats, rng, n_steps):
             xg_own = r.core._asm_sc_xbnds[ai]
             xg_own = xg_own[xg_own > 0]
             for reg in a.region:
+                # the duct mesh itself, from the dimensions of the region
+                # (outer surface of the outermost wall): half a corner, then
+                # (rings-1) edges of one pitch and a corner per side
+                xb = np.asarray(reg.calculate_xbnds(), dtype=float)
+                if reg.is_rodded:
+                    f_o = float(reg.duct_ftf[-1][1])
+                    pp, nr_ = float(reg.pin_pitch), int(reg.n_ring)
+                    wc = (2 * np.sqrt(3.0) * f_o - 6 * (nr_ - 1) * pp) / 6.0
+                    own = [0.0, 0.5 * wc]
+                    for side in range(6):
+                        for _e in range(nr_ - 1):
+                            own.append(own[-1] + pp)
+                        own.append(own[-1] + (wc if side < 5 else 0.5 * wc))
+                else:
+                    side_l = float(reg.duct_ftf[1]) / np.sqrt(3.0)
+                    own = [side_l * v for v in (0, .5, 1.5, 2.5, 3.5, 4.5,
+                                                5.5, 6.0)]
+                own = np.asarray(own)
+                res.check('H5_duct_mesh_from_dimensions',
+                          own.shape == xb.shape and bool(np.allclose(
+                              own, xb, rtol=0, atol=1e-10 * own[-1])),
+                          'duct-mesh boundaries of a region differ from the '
+                          'mesh its dimensions give (max %.3e m)'
+                          % (float(np.max(np.abs(own - xb)))
+                             if own.shape == xb.shape else float('nan')),
+                          {'mech': 'duct_mesh', 'region': _region_kind(reg),
+                           'n_duct': (int(reg.n_duct) if reg.is_rodded
+                                      else 1)})
                 ig = reg_.by_id.get(id(reg._map['gap2duct']))
                 idg = reg_.by_id.get(id(reg._map['duct2gap']))
                 ok = (ig is not None and idg is not None
